@@ -14,7 +14,7 @@ def run_suite(suite, tier, seed):
     for cname in gen.CLASSES:
         d = gen.DIM[cname]
         for k in range(ncases(tier) + 2):
-            fs = gen.mesh_case(rng, cname, nmax=nmax(tier) + 1, uniform=(k % 4 == 3), nmin=1)
+            fs = gen.mesh_case(rng, cname, nmax=nmax(tier) + 1, uniform=(k % 4 == 3), nmin=1, big=(k % 20 == 1))
             label = {"cls": cname, "faces": [list(map(float, f)) for f in fs]}
             try:
                 mesh = gen.build_mesh(pf, cname, fs)
